@@ -444,9 +444,89 @@ fn gen_design(rng: &mut Rng, n: usize, p: usize, f32m: bool, out: &mut Out) -> (
     (x, "fallback-gaussian".to_string(), c)
 }
 
+const N_DEGENERATE: usize = 9;
+/// Degenerate targets ("all y" includes them): constant (zero / non-zero / the ones vector), tiny
+/// spread around a large mean, a target equal to one column of X, orthogonal to every column and to
+/// the ones vector, y = X w0 exactly representable (zero residual, no intercept), one value
+/// repeated except in a single row.  `lattice`: small dyadic values (correspondence inputs).
+fn degenerate_target(rng: &mut Rng, x: &[Vec<f64>], fam: usize, f32m: bool, lattice: bool) -> (Vec<f64>, &'static str) {
+    let n = x.len();
+    let p = x[0].len();
+    let level = |rng: &mut Rng| -> f64 {
+        let c = if lattice { *rng.pick(&[0.5, 1.5, 3.0, 7.25, 100.0]) } else { 10f64.powf(rng.uniform(-1.0, if f32m { 1.7 } else { 4.0 })) };
+        if rng.bool() { c } else { -c }
+    };
+    let (y, name): (Vec<f64>, &'static str) = match fam {
+        0 => { let c = level(rng); (vec![c; n], "constant-nonzero") }
+        1 => (vec![0.0; n], "constant-zero"),
+        2 => (vec![1.0; n], "ones-vector"),
+        3 => {
+            // spread far below the mean; sometimes below one ulp of it (then the target IS constant
+            // after rounding), sometimes a few ulps
+            let c = level(rng) * if f32m { 1.0 } else { 100.0 };
+            let rel = 10f64.powf(rng.uniform(if f32m { -8.0 } else { -17.0 }, if f32m { -4.0 } else { -9.0 }));
+            ((0..n).map(|_| c * (1.0 + rel * rng.normal())).collect(), "tiny-spread-large-mean")
+        }
+        4 => { let j = rng.below(p); ((0..n).map(|i| x[i][j]).collect(), "equals-a-column") }
+        5 => {
+            // remove the components along the columns of X and the ones vector (twice)
+            if n <= p + 1 {
+                let c = level(rng);
+                (vec![c; n], "constant-nonzero")
+            } else {
+                let mut basis: Vec<Vec<f64>> = vec![];
+                let mut cols: Vec<Vec<f64>> = (0..p).map(|j| column(x, j)).collect();
+                cols.push(vec![1.0; n]);
+                for c in cols {
+                    let mut v = c.clone();
+                    for _ in 0..2 {
+                        for u in &basis {
+                            let d: f64 = u.iter().zip(v.iter()).map(|(a, b)| a * b).sum();
+                            for i in 0..n { v[i] -= d * u[i]; }
+                        }
+                    }
+                    let nv = norm2(&v);
+                    if nv > 1e-9 * norm2(&c) { basis.push(v.iter().map(|a| a / nv).collect()); }
+                }
+                let mut v: Vec<f64> = (0..n).map(|_| rng.normal()).collect();
+                for _ in 0..2 {
+                    for u in &basis {
+                        let d: f64 = u.iter().zip(v.iter()).map(|(a, b)| a * b).sum();
+                        for i in 0..n { v[i] -= d * u[i]; }
+                    }
+                }
+                let sc = level(rng).abs();
+                (v.iter().map(|a| a * sc).collect(), "orthogonal-to-columns")
+            }
+        }
+        6 => {
+            // y = X w0 with small integer w0 (no intercept): zero residual for the raw models
+            let w0: Vec<f64> = (0..p).map(|_| rng.int(-3, 3) as f64).collect();
+            ((0..n).map(|i| (0..p).map(|k| x[i][k] * w0[k]).sum::<f64>()).collect(), "exact-linear-no-intercept")
+        }
+        7 => {
+            let c = level(rng);
+            let mut y = vec![c; n];
+            let i = rng.below(n);
+            y[i] = if lattice { c + 2.0 } else { c * (1.0 + rng.uniform(0.01, 2.0)) + rng.normal() * 0.1 };
+            (y, "all-equal-but-one")
+        }
+        _ => {
+            // two distinct values only
+            let (a, b) = (level(rng), level(rng));
+            ((0..n).map(|_| if rng.bool() { a } else { b }).collect(), "two-valued")
+        }
+    };
+    (if f32m { y.iter().map(|v| r32(*v)).collect() } else { y }, name)
+}
+
 fn gen_target(rng: &mut Rng, x: &[Vec<f64>], f32m: bool) -> (Vec<f64>, &'static str) {
     let n = x.len();
     let p = x[0].len();
+    if rng.below(3) == 0 {
+        let fam = rng.below(N_DEGENERATE);
+        return degenerate_target(rng, x, fam, f32m, false);
+    }
     let (_, sd) = mean_std(x);
     let wstar: Vec<f64> = (0..p).map(|j| rng.normal() / sd[j].max(1e-300)).collect();
     let bstar = rng.normal() * 3.0;
@@ -510,8 +590,11 @@ fn check_predict(out: &mut Out, c: &Case, which: &str, fit: &FitOut, st: &mut St
     }
 }
 
-fn agreement(out: &mut Out, c: &Case, a: &FitOut, b: &FitOut, names: &str, cond_sys: f64, z_norms: &[f64], st: &mut Stats) {
-    // |dw_j| |x_j| and |db| sqrt(n) against (|y| + sum_k |x_k||w_k| + sqrt(n)|b|) * (AGREE * cond + floor)
+fn agreement(out: &mut Out, c: &Case, a: &FitOut, b: &FitOut, names: &str, cond_sys: f64, z_norms: &[f64], resid_norm: f64, st: &mut Stats) {
+    // |dw_j| |x_j| and |db| sqrt(n) against (|y| + sum_k |x_k||w_k| + sqrt(n)|b|) * (AGREE * cond + floor).
+    // A least-squares solution with a NON-ZERO residual r is determined by the data only up to
+    // eps * cond^2 * |r| / |A| (Wedin): for the OLS comparison the allowance therefore has the term
+    // 4 eps cond^2 |r| / scale as well (resid_norm = |y - y_hat|; 0 for the square ridge systems).
     let n = c.x.len() as f64;
     let (ag, floor) = if c.f32m { (AGREE32, AGREE_FLOOR32) } else { (AGREE64, AGREE_FLOOR64) };
     let base = norm2(&c.y) + (0..a.w.len()).map(|k| z_norms[k] * a.w[k].abs().max(b.w[k].abs())).sum::<f64>() + n.sqrt() * a.b.abs().max(b.b.abs());
@@ -521,7 +604,8 @@ fn agreement(out: &mut Out, c: &Case, a: &FitOut, b: &FitOut, names: &str, cond_
     }
     worst = worst.max((a.b - b.b).abs() * n.sqrt());
     let ratio = if base > 0.0 { worst / base } else if worst == 0.0 { 0.0 } else { f64::INFINITY };
-    let allowed = ag * cond_sys + floor;
+    let epsw = if c.f32m { f32::EPSILON as f64 } else { f64::EPSILON };
+    let allowed = ag * cond_sys + floor + if base > 0.0 { 4.0 * epsw * cond_sys * cond_sys * resid_norm / base } else { 0.0 };
     st.note(if c.f32m { "agree32/allowed" } else { "agree64/allowed" }, ratio / allowed);
     if !(ratio <= allowed) {
         out.fail(
@@ -563,7 +647,8 @@ fn check_case(out: &mut Out, c: &Case, st: &mut Stats) {
         }
         if fits.len() == 2 {
             let cond_aug = cond_of(&augmented(&c.x));
-            agreement(out, c, &fits[0].1, &fits[1].1, "QR vs SVD", cond_aug, &cn, st);
+            let rn = norm2(&(0..n).map(|i| c.y[i] - fits[0].1.pred_train[i]).collect::<Vec<f64>>());
+            agreement(out, c, &fits[0].1, &fits[1].1, "QR vs SVD", cond_aug, &cn, rn, st);
         }
     } else {
         let mut fits: Vec<(Sol, FitOut)> = vec![];
@@ -606,7 +691,7 @@ fn check_case(out: &mut Out, c: &Case, st: &mut Stats) {
             // condition of the solved system X^T X + alpha I: (s_max^2 + alpha) / (s_min^2 + alpha)
             let s = singular_values(&z);
             let cond_sys = (s[0] * s[0] + c.alpha) / (s[p - 1] * s[p - 1] + c.alpha);
-            agreement(out, c, &fits[0].1, &fits[1].1, "Cholesky vs SVD", cond_sys, &cn, st);
+            agreement(out, c, &fits[0].1, &fits[1].1, "Cholesky vs SVD", cond_sys, &cn, 0.0, st);
         }
     }
 }
@@ -1018,6 +1103,17 @@ fn main() {
         corr_validator(&mut out, &c, &mut rng);
     }
 
+    // fixed degenerate targets on the same design (seeded change C07b_1: a "constant target" shortcut
+    // in RidgeRegression::fit returned w = 0, b = mean y also for normalize = false)
+    for (ti, ty) in [vec![3.5; ly.len()], vec![0.0; ly.len()], (0..ly.len()).map(|i| if i == 4 { 9.0 } else { 7.0 }).collect::<Vec<f64>>()].iter().enumerate() {
+        for (ridge, normalize) in [(false, false), (true, true), (true, false)] {
+            let c = Case { ridge, x: lx.clone(), y: ty.clone(), alpha: 0.1, normalize, f32m: false, xnew: lx[..3].to_vec(), family: format!("corpus-longley+degenerate{}", ti) };
+            out.eval(c.key(), true);
+            out.count("search:corpus");
+            check_case(&mut out, &c, &mut st);
+        }
+    }
+
     // ---- correspondence: primitives ----
     let k = if a.thorough { 4 } else { 2 };
     for i in 0..(16 * k) {
@@ -1068,6 +1164,24 @@ fn main() {
             corr_ols(&mut out, &x, &y, Sol::QR, true);
             corr_ols(&mut out, &x, &y, Sol::SVD, true);
         }
+    }
+    // ---- correspondence: degenerate targets (constant, zero, ones, tiny spread, a column of X,
+    //      orthogonal to the columns, exact linear, all-equal-but-one, two-valued), every solver and
+    //      normalisation setting, bit for bit ----
+    for i in 0..(2 * N_DEGENERATE * k) {
+        let fam = i % N_DEGENERATE;
+        let p = rng.usize_in(1, 4);
+        let n = rng.usize_in(p + 1, 12);
+        let x = small_matrix(&mut rng, n, p, i % 4);
+        let (y, _) = degenerate_target(&mut rng, &x, fam, false, i % 2 == 0);
+        let alpha = if i % 2 == 0 { *rng.pick(&[0.125, 0.5, 1.0, 4.0]) } else { 10f64.powf(rng.uniform(-3.0, 2.0)) };
+        for normalize in [true, false] {
+            corr_ridge(&mut out, &x, &y, alpha, normalize, Sol::Chol, true);
+            corr_ridge(&mut out, &x, &y, alpha, normalize, Sol::SVD, i % 2 == 0);
+        }
+        corr_ols(&mut out, &x, &y, Sol::QR, i % 2 == 1);
+        corr_ols(&mut out, &x, &y, Sol::SVD, false);
+        out.count("corr:degenerate-target");
     }
     // error paths: n <= p, wrong target length, constant column (normalised: Err), alpha = 0 on a
     // rank-deficient design and negative alpha (Cholesky: not positive definite)
